@@ -20,6 +20,7 @@
  *   bypass <zone> <src> <dst> <gw_src|-> <gw_dst|-> <link[:U|:D]> ...
  *   gateway <zone> <netpoint>      prop <zone> <key> <value>      seal <zone>      xml <file>
  *   pair <src> <dst>               only these pairs are queried (default: all ordered pairs, self pairs included)
+ *   explicit                       only the listed pairs, even when there is none
  *   noself                         skip self pairs in the default enumeration
  *   pass2                          query every pair a second time, in column-major order (route caches)
  * One tick = 2^-20 s (sums of small multiples are exact in binary64).
@@ -238,6 +239,7 @@ int main(int argc, char** argv)
   std::vector<Pair> pairs;
   bool noself = false;
   bool pass2  = false;
+  bool explicit_pairs = false;
   bool built  = false;
   std::string line;
   int lineno = 0;
@@ -335,6 +337,8 @@ int main(int argc, char** argv)
         noself = true;
       else if (w == "pass2")
         pass2 = true;
+      else if (w == "explicit")
+        explicit_pairs = true;
       else
         die("unknown token " + w);
     }
@@ -368,7 +372,7 @@ int main(int argc, char** argv)
   for (auto const* h : hosts)
     printf("{\"t\":\"host\",\"name\":%s,\"zone\":%s}\n", jstr(h->get_name()).c_str(),
            jstr(h->get_englobing_zone()->get_name()).c_str());
-  if (pairs.empty()) {
+  if (pairs.empty() && not explicit_pairs) {
     for (auto const* s : hosts)
       for (auto const* d : hosts)
         if (!(noself && s == d))
